@@ -136,7 +136,9 @@ class _G:
                 continue
             choices = ["node", "node", "ctx0"]
             if dflt is not None:
-                choices += ["default", "default"]
+                choices += ["default", "default", "node_ctx0"]
+            if p not in self.live:
+                choices.append("node_ctx0")     # configured on the node AND a same-named key in the initial context (node wins)
             if self.dtype == "float" and len(self.nodes) < self.max_nodes - 1:
                 choices.append("probe")
             if p in self.live and self.live[p] == "num":
@@ -148,6 +150,11 @@ class _G:
                 params[p] = self.val()
                 if self.allow_nonfinite and name in ("SvAdd", "SvAddDefault", "SvAffine", "SvCaseOp") and rng.random() < 0.04:
                     params[p] = float("inf") if rng.random() < 0.7 else float("-inf")
+            elif c == "node_ctx0":
+                params[p] = self.val()
+                if p not in self.live:
+                    self.ctx0[p] = self.val()
+                    self.live[p] = "num"
             elif c == "ctx0":
                 if p not in self.live:
                     self.ctx0[p] = self.val()
@@ -576,7 +583,7 @@ def apply_failure(sc: dict, kind: str, k: int) -> dict:
 
 
 # ---------------------------------------------------------------- run spaces
-def gen_run_space(rng: random.Random, keys: list[str], *, allow_source=True, max_runs_cap=6) -> dict:
+def gen_run_space(rng: random.Random, keys: list[str], *, allow_source=True, max_runs_cap=6, exotic=False) -> dict:
     """Generate a run_space block over the given context keys (each key used at most once)."""
     keys = list(keys)
     rng.shuffle(keys)
@@ -656,6 +663,18 @@ def gen_run_space(rng: random.Random, keys: list[str], *, allow_source=True, max
             block["source"] = src
             if not ctx:
                 block.pop("context")
+        if exotic:
+            # keys no node consumes may carry non-ASCII text, and a null cell in a row other than the first
+            for k in sorted(block.get("context") or {}):
+                if k in keys:
+                    continue
+                vs = block["context"][k]
+                r = rng.random()
+                if r < 0.35:
+                    block["context"][k] = [rng.choice(["\u03b1-\u03b2", "na\u00efve", "\u65e5\u672c", "caf\u00e9 \u2615"]) + str(i) for i in range(len(vs))]
+                elif r < 0.55 and len(vs) >= 2:
+                    j = rng.randrange(1, len(vs))
+                    block["context"][k] = vs[:j] + [None] + vs[j + 1:]
         blocks.append(block)
     rs: dict[str, Any] = {"blocks": blocks}
     if combine != "combinatorial" or rng.random() < 0.5:
